@@ -379,7 +379,7 @@ static void case_grid(Rng& rng, uint64_t index)
 
 static void setup()
 {
-	add_generator("tables", ctx().count(2500, 2000000), case_table);
-	add_generator("grids_2d", ctx().count(800, 400000), case_grid);
+	add_generator("tables", ctx().count(20000, 2000000), case_table);
+	add_generator("grids_2d", ctx().count(6400, 400000), case_grid);
 }
 VERIF_MAIN("C08", setup)
